@@ -527,7 +527,23 @@ fn ftrl<F: SS>(p: &Params) {
             let dst = DatasetBase::new(xt.clone(), Array1::from(lt.clone()));
             let probs: Array1<Pr> = (0..rows).map(|i| Pr::new(pr_of(p.u("probs", 0) / 5usize.pow(i as u32) + t))).collect();
             let (zb, nb_, wb) = (m.z().clone(), m.n().clone(), m.get_weights());
-            m.update(&dst, probs.view());
+            // the documented recurrence has no division by a state-dependent quantity: a division by a symbolic zero
+            // inside `update` (the engine aborts such a path) is reported, not excluded
+            match std::panic::catch_unwind(std::panic::AssertUnwindSafe(|| {
+                let mut m2 = m.clone();
+                m2.update(&dst, probs.view());
+                m2
+            })) {
+                Ok(m2) => m = m2,
+                Err(e) => {
+                    if matches!(e.downcast_ref::<symx::Abort>(), Some(symx::Abort::DivByZero)) {
+                        check_bool("ftrl.update does not divide by zero (0/0 would make the state NaN)", false);
+                        return;
+                    }
+                    std::panic::resume_unwind(e)
+                }
+            }
+            check_bool("ftrl.state stays finite", m.z().iter().chain(m.n().iter()).all(|v| v.shadow().is_finite()));
             let diff: Array1<F> = (0..rows).map(|i| <F as linfa::Float>::cast(*probs[i]) - if lt[i] { k(1.0) } else { k(0.0) }).collect();
             let g = diff.dot(&xt);
             for j in 0..d {
